@@ -24,12 +24,28 @@ structure View where
 
 def View.active (w : View) : List Nat := w.bonded.take w.m
 
+def sumGE (ps : List Nat) (m : Nat) : Nat := ((ps.filter fun p => decide (p ≥ m))).sum
+
+/-- the threshold as the property defines it: the largest power `m` among `ps` such that the
+    validators with power ≥ m hold at least N % of the total (exact rational arithmetic) -/
+def trueThreshold (ps : List Nat) (n : Nat) : Option Nat :=
+  let total := ps.sum
+  let ok := ps.filter fun m => decide (100 * sumGE ps m ≥ n * total)
+  ok.foldl (fun (acc : Option Nat) m => match acc with | none => some m | some a => some (max a m)) none
+
+
+
 def View.isBondedOK (w : View) (v : Nat) : Bool :=
   w.bonded.contains v && (sval w.stk v).status == 3 && !(sval w.stk v).jailed
 
+/-- opted in, or required by the Top-N rule — with the threshold as the PROPERTY defines it
+    (recomputed here from the active powers), not the one the implementation stored -/
 def View.optedOrTopN (w : View) (v : Nat) : Bool :=
   w.optin.contains v ||
-  (w.ps.topN > 0 && (match w.minpow with | some mp => decide (lastPower w.stk v ≥ mp) | none => false))
+  (w.ps.topN > 0 &&
+    (match trueThreshold (w.active.map (lastPower w.stk)) w.ps.topN with
+     | some mp => decide (lastPower w.stk v ≥ mp)
+     | none => false))
 
 def View.listsOK (w : View) (v : Nat) : Bool :=
   (w.allow.isEmpty || w.allow.contains v) && (w.deny.isEmpty || !w.deny.contains v) &&
@@ -66,8 +82,6 @@ def c02Complete (w : View) : Bool :=
 def c02NoDup (w : View) : Bool := (w.valset.map (·.v)).eraseDups.length == w.valset.length
 
 /-! ### C03 -/
-
-def sumGE (ps : List Nat) (m : Nat) : Nat := ((ps.filter fun p => decide (p ≥ m))).sum
 
 /-- the stored threshold `m` is the least power of the shortest descending prefix reaching N %:
     it occurs among the active powers, the validators at or above it hold ≥ N %, and no larger
@@ -110,5 +124,6 @@ def c04PowerCap (w : View) : Bool :=
   w.ps.powCap == 0 ||
   Spec.C04.powerCapOK (w.valset.map fun c => toCV w c.v) w.ps.powCap
     (w.valset.map fun c => { id := c.v, power := c.power })
+
 
 end ICS.Spec.Epoch
